@@ -23,7 +23,16 @@ Tie to /repo, every run:
   K3 the loader alone: `c13.loadfile` (Lean `loadFile`: validate, register, `located` = the name is a plain scalar) vs the
      registry of the real `Resolver.load_external` on the exported files (keys in order; the position delimits the name on a
      `name:` line iff located). Theorems `loadFile_registers`, `export_registered`: registration does not depend on `located`.
-  S  specification on the implementation's observations: every exported declaration is registered under its qualified name
+  K4 the workspace of the dependent program: every other round trip is built in a workspace of four directories — the working
+     directory `work`, the directory `app` of the IDL file, the include directories `inc1`, `inc2` (absolute or relative to the
+     working directory) — with the export reachable as given / next to the IDL file / through the first / the second include
+     directory / by an absolute literal; every search candidate *behind* the export holds a decoy of the same relative name (an
+     export of the same qualified names declared as other kinds under another naming configuration), the candidate in front of it
+     may be a directory of that name. `c13.locate` (Lean `searchOrder`, `locate`; theorems `locate_first_file`,
+     `nextToIdl_before_includeDirs`, `includeDirs_in_order`, `extern_loads_export`) on the workspace as written vs the files the real
+     parser read (`parsed.external_types`); the all-local reference is built in the same place (same root spelling and cwd).
+  S  specification on the implementation's observations: every `@extern` directive loaded the export, not a decoy
+     (`extern:wrong-file:<form>`); every exported declaration is registered under its qualified name
      by the real loader (`key:<Kind>`), `c13.spec` compares every applicable read through the really loaded type with the read
      through the real local declaration (names the attribute), plus the file identity of K2.
 """
@@ -55,6 +64,13 @@ THEOREMS = [
     "Pydjinni.C13.roundtrip_base",
     "Pydjinni.C13.roundtrip_key",
     "Pydjinni.C13.export_validates",
+    "Pydjinni.C13.locate_first_file",
+    "Pydjinni.C13.locate_decoys_irrelevant",
+    "Pydjinni.C13.asGiven_first",
+    "Pydjinni.C13.nextToIdl_before_includeDirs",
+    "Pydjinni.C13.includeDirs_in_order",
+    "Pydjinni.C13.extern_loads_export",
+    "Pydjinni.C13.extern_export_registered",
 ]
 LEVEL = "proof"
 TRUSTED = (
@@ -529,6 +545,58 @@ def decl_refs(slots: list[str], names: dict) -> list[dict]:
     return [{"slot": s, "tag": EXPORTS[s][1], "ref": (names[s][1] + "." if names[s][1] else "") + names[s][0]} for s in slots]
 
 
+# ---------------------------------------------------------------------------------------------------------
+# the workspace of the dependent program: where the exported files stand, and what else stands around them
+# ---------------------------------------------------------------------------------------------------------
+
+# `@extern "<literal>"` is looked up as given (absolute / relative to the working directory), next to the IDL file, in the include
+# directories in order (Lean `searchOrder` / `locate`). The form says where the *export* stands; every candidate behind it holds a
+# decoy of the same relative name: an export of the same qualified names with other kinds under another naming configuration.
+FORMS = ["file", "include-1", "cwd", "include-2", "absolute"]
+SEARCH_DIRS = ["work", "app", "inc1", "inc2"]       # working directory, directory of the IDL file, include directories
+HOME_OF_FORM = {"cwd": "work", "file": "app", "include-1": "inc1", "include-2": "inc2", "absolute": "real"}
+
+
+def decoy_exporter(c: dict) -> str:
+    """the same names in the same namespaces, every one declared as another kind of type"""
+    names = {k: tuple(v) for k, v in c["names"].items()}
+    out = []
+    for s in c["exp_slots"]:
+        k = (SAFE.index(s) if s in SAFE else 0)
+        other = next(o for o in SAFE[k + 1:] + SAFE[:k + 1] if EXPORTS[o][1] != EXPORTS[s][1])
+        name, ns = names[s]
+        decl = EXPORTS[other][0].format(n=name)
+        out.append(f"namespace {ns} {{ {decl.rstrip()} }}\n" if ns else decl)
+    return "".join(out)
+
+
+def workspace(layout: dict, true: dict, decoy: dict) -> dict:
+    """files / directories of the dependent program's workspace (without the root IDL file), the literal of every exported file
+    and what stands at each of its search candidates"""
+    form = layout["form"]
+    home = HOME_OF_FORM[form]
+    files, dirs = {}, ["work", "inc1", "inc2"]
+    behind = SEARCH_DIRS[SEARCH_DIRS.index(home) + 1:] if home in SEARCH_DIRS else list(SEARCH_DIRS)
+    front = SEARCH_DIRS[:SEARCH_DIRS.index(home)] if home in SEARCH_DIRS else []
+    slots = {}
+    for n in sorted(true):
+        files[f"{home}/ext/{n}"] = true[n]
+        for b in behind:
+            if n in decoy:
+                files[f"{b}/ext/{n}"] = decoy[n]
+        # in front of the export: nothing, or (last directory in front) a *directory* of that name, which the search skips
+        as_dir = {front[-1]} if front and layout.get("dir_decoy") else set()
+        dirs += [f"{b}/ext/{n}" for b in as_dir]
+        if form == "absolute":
+            slots[n] = [{"file": f"real/ext/{n}"}] * len(SEARCH_DIRS)       # an absolute right operand wins in every `dir / path`
+        else:
+            slots[n] = ["dir" if b in as_dir else {"file": f"{b}/ext/{n}"} if f"{b}/ext/{n}" in files else "absent" for b in SEARCH_DIRS]
+    literal = (lambda n: "{SRC}/real/ext/" + n) if form == "absolute" else (lambda n: "ext/" + n)
+    incs = ["../inc1", "../inc2"] if layout.get("relative_include_dirs") else ["{SRC}/inc1", "{SRC}/inc2"]
+    return {"files": files, "dirs": dirs, "literal": literal, "slots": slots, "home": home,
+            "job": {"cwd": "work", "root": "../app/main.djinni", "generate": {"include_dirs": incs}, "subst": True}}
+
+
 def gen_case(r: random.Random, i: int) -> dict:
     k = r.choice([1, 2, 3, 4])
     # every slot is due once per len(SAFE) cases, the others are drawn
@@ -540,10 +608,20 @@ def gen_case(r: random.Random, i: int) -> dict:
     mode = "out_file" if (i + i // 8) % 2 else "per_type"
     names = draw_names(r, slots + ["xerr"], naming, allow_same_name=(mode == "out_file"))
     exp = exporter_text(slots, names)
+    exp_slots = list(slots)
     if r.random() < 0.3:
         exp += exporter_text(["xerr"], names)      # exported, but no dependant throws it
-    return {"exp": exp, "dep": dependant(r, decl_refs(slots, names), rot=i), "config": cfg, "config_name": cfg_name, "mode": mode,
-            "shape": "closed", "naming": naming, "slots": slots, "rot": i, "names": {k: list(v) for k, v in names.items()}}
+        exp_slots.append("xerr")
+    c = {"exp": exp, "dep": dependant(r, decl_refs(slots, names), rot=i), "config": cfg, "config_name": cfg_name, "mode": mode,
+         "shape": "closed", "naming": naming, "slots": slots, "exp_slots": exp_slots, "rot": i, "names": {k: list(v) for k, v in names.items()}}
+    # every other case: the dependent program lives in a workspace of several directories with decoy exports (form x export mode
+    # x directory decoy x spelling of the include directories rotate)
+    if i % 2 == 1:
+        j = i // 2
+        dcfg_name, dcfg = CONFIGS[(i + 1 + j % (len(CONFIGS) - 1)) % len(CONFIGS)]
+        c["layout"] = {"form": FORMS[(j + j // len(FORMS)) % len(FORMS)], "decoy": decoy_exporter(c), "decoy_config": dcfg, "decoy_config_name": dcfg_name,
+                       "dir_decoy": (j // 2) % 2 == 1, "relative_include_dirs": (j // 3) % 2 == 1}
+    return c
 
 
 # ---------------------------------------------------------------------------------------------------------
@@ -641,6 +719,11 @@ def hook_loader(job, ctx_obj, jobdir):
     """the loader alone (a root file that only pulls the YAML files in): what is registered does not depend on whether a
     dependant can be built"""
     src = Path(jobdir) / "src"
+    if job.get("workspace"):
+        # the files the real parser located for the `@extern` directives, in the order of the directives
+        import os
+        located = [os.path.normpath(os.path.abspath(str(p))) for p in ctx_obj._file_reader_writer.processed_files.parsed.external_types]
+        return {"loaded": loaded_tables(located), "located": [os.path.relpath(p, str(src)) for p in located]}
     return {"loaded": loaded_tables(sorted(str(p) for p in (src / "ext").glob("*.yaml")))}
 
 
@@ -716,19 +799,27 @@ def round_trips(ctx, cases, used, spec, minimise=True):
     used_req = [[u["gen"], u["attr"], u["ctx"]] for u in used]
     breaks = []
     pending = []        # differing round trips: reported after the attempt to reproduce each shape with one declaration and one site
-    # round 1: all-local build, and the export
+    # round 1: all-local build, and the export (+ the decoy export of a workspace case)
     jobs = []
     for c in cases:
         cfg = c["config"]
-        jobs.append({"files": {"main.djinni": c["exp"] + c["dep"]}, "root": "main.djinni", "targets": TARGETS, "config": cfg})
-        ycfg = genrun.deep_merge(cfg, {"yaml": {"out_file": "all.yaml"}} if c["mode"] == "out_file" else {})
-        jobs.append({"files": {"exp.djinni": c["exp"]}, "root": "exp.djinni", "targets": ["yaml"], "config": ycfg,
+        lay = c.get("layout")
+        c["_jobs"] = [len(jobs), len(jobs) + 1, len(jobs) + 2 if lay else None]
+        if lay:
+            # the all-local reference is built where the dependent program will be built: same root spelling, same working directory
+            jobs.append({"files": {"app/main.djinni": c["exp"] + c["dep"]}, "root": "../app/main.djinni", "cwd": "work", "targets": TARGETS, "config": cfg})
+        else:
+            jobs.append({"files": {"main.djinni": c["exp"] + c["dep"]}, "root": "main.djinni", "targets": TARGETS, "config": cfg})
+        yopt = {"yaml": {"out_file": "all.yaml"}} if c["mode"] == "out_file" else {}
+        jobs.append({"files": {"exp.djinni": c["exp"]}, "root": "exp.djinni", "targets": ["yaml"], "config": genrun.deep_merge(cfg, yopt),
                      "hook": "props.c13:hook_export", "node_attrs": node_attrs})
+        if lay:
+            jobs.append({"files": {"exp.djinni": lay["decoy"]}, "root": "exp.djinni", "targets": ["yaml"], "config": genrun.deep_merge(lay["decoy_config"], yopt)})
     res1 = genrun.run_many(ctx.tmp / "r1", jobs, timeout=90)
     # round 2: the dependant with @extern
     jobs2, idx2 = [], []
     for k, c in enumerate(cases):
-        loc, exp = res1[2 * k], res1[2 * k + 1]
+        loc, exp = res1[c["_jobs"][0]], res1[c["_jobs"][1]]
         c["local"], c["export"] = loc, exp
         if not loc["ok"]:
             ctx.stat("local_build_fails_" + loc["stage"])
@@ -736,14 +827,30 @@ def round_trips(ctx, cases, used, spec, minimise=True):
         if not exp["ok"]:
             raise common.Infra(f"the exporter part of a closed-world program is not generated: {exp}\n{c['exp']}")
         yamls = {p[5:]: t for p, t in exp["files"].items() if p.startswith("yaml/")}
-        files = {"main.djinni": "".join(f'@extern "ext/{n}"\n' for n in sorted(yamls)) + c["dep"]}
-        for n, t in yamls.items():
-            files["ext/" + n] = t
         c["yamls"] = yamls
-        jobs2.append({"files": files, "root": "main.djinni", "targets": TARGETS, "config": c["config"]})
-        lfiles = dict(files)
-        lfiles["main.djinni"] = "".join(f'@extern "ext/{n}"\n' for n in sorted(yamls))
-        jobs2.append({"files": lfiles, "root": "main.djinni", "targets": [], "config": c["config"], "hook": "props.c13:hook_loader"})
+        ws = None
+        if c.get("layout"):
+            dec = res1[c["_jobs"][2]]
+            decoys = {p[5:]: t for p, t in dec["files"].items() if p.startswith("yaml/")} if dec["ok"] else {}
+            if not dec["ok"] or set(decoys) != set(yamls):
+                ctx.stat("workspace_with_incomplete_decoy")
+            ws = workspace(c["layout"], yamls, decoys)
+        c["ws"] = ws
+        if ws:
+            heads = "".join(f'@extern "{ws["literal"](n)}"\n' for n in sorted(yamls))
+            files = {**ws["files"], "app/main.djinni": heads + c["dep"]}
+            extra = {**ws["job"], "dirs": ws["dirs"]}
+            jobs2.append({"files": files, "targets": TARGETS, "config": c["config"], **extra})
+            jobs2.append({"files": {**ws["files"], "app/main.djinni": heads}, "targets": [], "config": c["config"], **extra,
+                          "hook": "props.c13:hook_loader", "workspace": True})
+        else:
+            files = {"main.djinni": "".join(f'@extern "ext/{n}"\n' for n in sorted(yamls)) + c["dep"]}
+            for n, t in yamls.items():
+                files["ext/" + n] = t
+            jobs2.append({"files": files, "root": "main.djinni", "targets": TARGETS, "config": c["config"]})
+            lfiles = dict(files)
+            lfiles["main.djinni"] = "".join(f'@extern "ext/{n}"\n' for n in sorted(yamls))
+            jobs2.append({"files": lfiles, "root": "main.djinni", "targets": [], "config": c["config"], "hook": "props.c13:hook_loader"})
         idx2.append(k)
     res2 = genrun.run_many(ctx.tmp / "r2", jobs2, timeout=90)
     reqs, metas = [], []
@@ -751,6 +858,8 @@ def round_trips(ctx, cases, used, spec, minimise=True):
         r2, rl = res2[2 * j], res2[2 * j + 1]
         c = cases[k]
         inp = {"exporter": c["exp"], "dependant": c["dep"], "config": c["config"], "mode": c["mode"]}
+        if c.get("layout"):
+            inp["layout"] = c["layout"]
         # 1. every exported document validates against the published model; per-type files hold one document each
         docs, doc_list = {}, []
         for n in sorted(c["yamls"]):
@@ -795,6 +904,23 @@ def round_trips(ctx, cases, used, spec, minimise=True):
             loaded = rl["extra"]["loaded"]
             reqs.append({"op": "c13.loadfile", "spec": spec, "docs": [doc_req(d, gen_keys) for d in doc_list]})
             metas.append(("loadfile", c, None, None, loaded))
+            ws = c.get("ws")
+            if ws:
+                # which file every `@extern` directive found: the search order (Lean `locate`) on the workspace as it was written,
+                # vs the files the real parser read; the file has to be the export (the decoys stand behind it)
+                form = c["layout"]["form"]
+                located = rl["extra"]["located"]
+                ctx.count(key=("workspace", form, c["mode"], "dir-decoy" if c["layout"].get("dir_decoy") else "", "relative-include-dirs" if c["layout"].get("relative_include_dirs") else ""),
+                          nontrivial=True, sample={"form": form, "files": sorted(ws["files"])[:8], "located": located[:4]})
+                ctx.stat("workspace_" + form)
+                for n, got in zip(sorted(c["yamls"]), located + [None] * len(c["yamls"])):
+                    reqs.append({"op": "c13.locate", "as_given": ws["slots"][n][0], "next_to_idl": ws["slots"][n][1], "include_dirs": ws["slots"][n][2:]})
+                    metas.append(("locate", c, n, None, got))
+                    if got != f"{ws['home']}/ext/{n}":
+                        ctx.report("extern:wrong-file:" + form, "an @extern directive of the dependent program did not load the exported file but another file of the same relative name",
+                                   {"input": inp, "directive": '@extern "' + ws["literal"](n) + '"', "exported_file": f"{ws['home']}/ext/{n}", "loaded_file": got,
+                                    "working_directory": "work", "idl_file": "app/main.djinni", "include_dirs": ws["job"]["generate"]["include_dirs"],
+                                    "candidates_in_search_order": ws["slots"][n]})
         # 3. the dependant
         if not r2["ok"]:
             ctx.count(key=("roundtrip", c["shape"], "dependant-fails"), sample=inp)
@@ -863,6 +989,14 @@ def round_trips(ctx, cases, used, spec, minimise=True):
         if "error" in a:
             raise common.Infra(f"driver error {a} ({kind} {key})")
         inp = {"exporter": c["exp"], "dependant": c["dep"], "config": c["config"], "mode": c["mode"], "type": key}
+        if c.get("layout"):
+            inp["layout"] = c["layout"]
+        if kind == "locate":
+            ctx.count(n=1)
+            if a.get("located") != other:
+                inp.pop("type")
+                breaks.append({"what": "c13.locate (search order on the written workspace) vs the file the parser read", "file": key, "model": a.get("located"), "impl": other, "input": inp})
+            continue
         if kind == "loadfile":
             ctx.count(n=1)
             inp.pop("type")
@@ -912,7 +1046,8 @@ def load_corpus():
 
 
 def run(ctx):
-    ctx.coverage["rule"] = ("round trips: distinct = (shape, export mode, configuration, naming family, exported slots); usage sites: distinct = (exported kind, wrapper, "
+    ctx.coverage["rule"] = ("round trips: distinct = (shape, export mode, configuration, naming family, exported slots); workspaces: distinct = (where the export stands, "
+                            "export mode, directory decoy, spelling of the include directories); usage sites: distinct = (exported kind, wrapper, "
                             "position); names: distinct = (declaration kind, export mode, name family, namespaced); function level: one evaluation per exported declaration "
                             "and op (export, load, spec) and one per program for the whole-file load")
     ctx.assumptions += [
@@ -929,6 +1064,10 @@ def run(ctx):
         "objc.strict_protocols, cpp.string_serialization) x four naming families x per-type files / out_file: every pair within 16 consecutive cases",
         "Dom clauses (findings): noExternErrorDomainThrown, noExternBaseRecord, distinctNamesPerTypeFile — excluded from the generator, one witness each in corpus/c13.json",
         "generated files are compared byte for byte (sha256); the banner names the same root file in both builds",
+        "every other case runs in a workspace: working directory, directory of the IDL file and two include directories are four different directories; the export stands "
+        "at one search candidate (" + ", ".join(FORMS) + " in rotation, x export mode), every candidate behind it holds a decoy export of the same relative name (same qualified "
+        "names, every declaration of another kind, another of the four configurations), the last candidate in front of it is absent or a directory of that name; no symbolic links; "
+        "the root IDL file is spelled relative to the working directory",
     ]
     api, gens = api_and_gens()
     used, spec, computed, ok = obligations(ctx, gens)
@@ -971,6 +1110,13 @@ def replay(ctx, body):
     api, gens = api_and_gens()
     used, spec = extract_used(gens), ext_fields(gens)
     n0, k0 = len(ctx.violations), sum(ctx.known_hits.values())
-    round_trips(ctx, [{"exp": inp["exporter"], "dep": inp["dependant"], "config": inp.get("config", {}), "config_name": "replay",
-                       "mode": inp.get("mode", "per_type"), "shape": "replay"}], used, spec)
+    key = body.get("key")
+    kk0 = ctx.known_hits.get(key, 0)
+    case = {"exp": inp["exporter"], "dep": inp["dependant"], "config": inp.get("config", {}), "config_name": "replay",
+            "mode": inp.get("mode", "per_type"), "shape": "replay"}
+    if inp.get("layout"):
+        case["layout"] = inp["layout"]
+    round_trips(ctx, [case], used, spec)
+    if key:     # the recorded failure: does a failure of the same shape occur again?
+        return not any(v["key"] == key for v in ctx.violations[n0:]) and ctx.known_hits.get(key, 0) == kk0
     return len(ctx.violations) == n0 and sum(ctx.known_hits.values()) == k0
